@@ -6,7 +6,7 @@ CHECK = {
         "PostgreSQL backend: no database server in the sandbox",
         "raft-live: single-node cluster; a single started write is waited for until raft has committed it (one entry per FSM batch, log order = action order); a burst starts 2-4 writes/commits behind a test-only gate on the raft log store (a slow disk) and a raft barrier entry, so raft group-commits them into one multi-entry FSM batch; their order is read back from the log store",
         "raft-live: observations are the values and listings handed to the caller; blind writes (conservatively verified by the backend) are not observations, so a false conflict on them is allowed",
-        "raft-live: no chunked (> 256 KiB) entries, no empty values (an empty value hashes like an absent key)",
+        "raft-live: no chunked (> raftchunking.ChunkSize = 512 KiB) entries - chunking is covered by C09's replicas unit -, no empty values (an empty value hashes like an absent key)",
     ],
     "units": [
         unit("storagex-txn", "storagex", ["storagex/model_test.go", "storagex/c08_txn_test.go"], "^TestVerif_C08_Txn$",
